@@ -11,7 +11,7 @@ HARNESS = os.path.join(ROOT, "harness")
 DRIVER = os.path.join(LEAN, ".lake", "build", "bin", "driver")
 GUARD = "NEATVI_VERIF"
 NCPU = os.cpu_count() or 4
-CFLAGS = ["-g", "-O1", "-fsanitize=address,undefined", "-fno-sanitize-recover=all",
+CFLAGS = ["-g", "-O1", "-fsanitize=address,undefined", "-fno-sanitize-recover=all", "-fno-sanitize=nonnull-attribute",
           "-fno-omit-frame-pointer", "-D" + GUARD, "-w"]
 ALLOWED_AXIOMS = {"propext", "Classical.choice", "Quot.sound"}
 FORBIDDEN = re.compile(r"\b(sorry|admit|native_decide|bv_decide|implemented_by|unsafe)\b|^\s*axiom\s|maxHeartbeats\s+0")
